@@ -70,3 +70,20 @@ package index
 //gvc:  opt safety
 //gvc:  requires nn: d.r != nil
 //gvc:end
+
+// encodeEntryNameV4 (version 4 path compression): the first chunk written for
+// an entry is the OFS-style varint of the strip length
+// len(previous name) - commonPrefix(previous name, name) (0 for the first
+// entry), as git's read-cache.c expects.
+//gvc:func (*Encoder).encodeEntryNameV4
+//gvc:  props C12
+//gvc:  theory int
+//gvc:  opt coarse
+//gvc:  opt frame args
+//gvc:  results err
+//gvc:  requires nn: e.w != nil && entry != nil
+//gvc:  let n0 = e.w.#fedn
+//gvc:  let last = e.lastEntry
+//gvc:  ensures strip: err == nil && last != nil ==> e.w.#fedn >= n0 + 1 && exists(c, 0, len(last.Name) + 1, c <= len(entry.Name) && forall(k, 0, c, last.Name[k] == entry.Name[k]) && (c < len(last.Name) && c < len(entry.Name) ==> last.Name[c] != entry.Name[c]) && spec_ofs_value(e.w.#fedarr[n0], e.w.#fedoff[n0], e.w.#fedlen[n0]) == len(last.Name) - c)
+//gvc:  ensures first: err == nil && last == nil ==> e.w.#fedn >= n0 + 1 && spec_ofs_value(e.w.#fedarr[n0], e.w.#fedoff[n0], e.w.#fedlen[n0]) == 0
+//gvc:end
